@@ -20,18 +20,11 @@ MODS = {
     "C02": ["PrimitivModel.Props.C02.Move"],
     "C03": ["PrimitivModel.Props.C03.Move"],
     "C08": ["PrimitivModel.Props.C08.Move"],
-    "C10": ["PrimitivModel.Props.C11.Move"],   # Guard soundness is shared with C11
+    "C10": ["PrimitivModel.Props.C10.Move"],   # Guard.<entry>_sound (re-exported from C11), Fail.<entry>
     "C11": ["PrimitivModel.Props.C11.Move"],
 }
 DRIVERS = ["kernels"]
-STATED_NOT_PROVED = {
-    "C01": [],
-    "C02": [],
-    "C03": ["Primitiv.C03.Move.Batch.bwd_law_full (data-level fold law for every backward kernel at once; proved: the generic Batch.bwd_fold and its instances Batch.slice_bw_fold, Batch.pick_bw_fold)"],
-    "C11": [],
-    "C10": [],
-    "C08": [],
-}
+STATED_NOT_PROVED = {"C01": [], "C02": [], "C03": [], "C08": [], "C10": [], "C11": []}
 FAMILY, HARNESS = "kernels", "h_kernels"
 W = 2 ** 32
 AXES_EXTRA = [7, 8, 9, W - 1]
@@ -870,6 +863,71 @@ def too_big(line, limit=400):
     return False
 
 
+UNARY_PATTERNS = ["1", "B"]
+EXPECTED_PATTERNS = {
+    "pick_fw": ["1;ids1", "1;idsB", "B;ids1", "B;idsB"],
+    "pick_bw": ["1,1;ids1", "B,1;idsB", "B,B;ids1", "B,B;idsB"],   # (gy, gx); gy has max(batch gx, |ids|) samples
+    "slice_bw": ["1,1", "1,B", "B,1", "B,B"],
+    "flip_bw": ["1,1", "B,B"],
+    "transpose_bw": ["1,1,1,1", "B,B,B,B"], "permute_dims_bw": ["1,1,1,1", "B,B,B,B"],
+    "max_bw": ["1,1,1,1", "B,B,B,B"], "min_bw": ["1,1,1,1", "B,B,B,B"],
+    "batch_pick_bw": ["1,1", "1,B", "B,1", "B,B"],    # gy has |ids| samples
+    "batch_slice_bw": ["1,1", "1,B", "B,B"],
+    "concat_fw": ["1,1", "1,B", "B,1", "B,B"],        # first two operands
+    "batch_concat_fw": ["1,1", "1,B", "B,1", "B,B"],
+}
+for _op in FW1 + ["reset", "reset_array", "reset_vector"]:
+    EXPECTED_PATTERNS.setdefault(_op, list(UNARY_PATTERNS))
+
+
+def batch_pattern(line):
+    """(kernel, 'B,1,…'): which tensor operands (at most the first four) carry a minibatch"""
+    w = line.split()
+    pats = []
+    for t in w[1:]:
+        pt = split_tok(t)
+        if pt is not None:
+            pats.append("B" if pt.batch > 1 else "1")
+    cut = 2 if w[0] in ("concat_fw", "batch_concat_fw") else 4
+    pat = ",".join(pats[:cut])
+    if w[0] in ("pick_fw", "pick_bw") and pat:
+        nids = len([t for t in w[1:] if t.isdigit()]) - 1
+        pat += ";ids" + ("1" if nids == 1 else "B")
+    return w[0], pat
+
+
+def pattern_pass(rng, valid, seen):
+    """Make every kernel appear with every admissible batch pattern at least once
+    among the ACCEPTED lines; returns the coverage matrix kernel -> pattern -> count."""
+    matrix = {}
+
+    def note(l):
+        op, pat = batch_pattern(l)
+        if pat and spec_line("naive " + l).startswith("ok"):
+            matrix.setdefault(op, {})
+            matrix[op][pat] = matrix[op].get(pat, 0) + 1
+
+    for l in valid:
+        note(l)
+    missing = []
+    for op in sorted(EXPECTED_PATTERNS):
+        for pat in EXPECTED_PATTERNS[op]:
+            tries = 0
+            while matrix.get(op, {}).get(pat, 0) == 0 and tries < 400:
+                tries += 1
+                l = gen_valid(rng, op)
+                if l in seen or too_big(l) or batch_pattern(l)[1] != pat:
+                    continue
+                if not spec_line("naive " + l).startswith("ok"):
+                    continue
+                seen.add(l)
+                valid.append(l)
+                note(l)
+            if matrix.get(op, {}).get(pat, 0) == 0:
+                missing.append("%s:%s" % (op, pat))
+    return matrix, missing
+
+
 def streams(rng, tier):
     """{'valid': [...], 'malformed': [...], 'exhaustive': [...]} — lines without the device token."""
     quick = tier == "quick"
@@ -906,7 +964,8 @@ def streams(rng, tier):
             "slice_bw T:2,2/1:1,1,1,1 T:2,3/1:0,0,0,0,0,0 1 4294967295",
             "slice_bw T:2/1:1,1 T:4/1:0,0,0,0 0 4294967294"]
     ex = [] if quick else [l for l in exhaustive(rng) if l not in seen]
-    return {"valid": valid, "malformed": mal, "exhaustive": ex}
+    matrix, missing = pattern_pass(rng, valid, seen)
+    return {"valid": valid, "malformed": mal, "exhaustive": ex, "matrix": matrix, "matrix_missing": missing}
 
 
 # ----------------------------------------------------------------------------
@@ -1087,6 +1146,9 @@ def run_family(chk, prop):
         for name, why in broken.items():
             chk.report("obligation:" + name, "theorem %s no longer checks: %s" % (name, why),
                        {"theorem": name, "reason": why, "log": (chk.oblig or {}).get("log_tail", "")[-1500:]}, found_input=False)
+    chk.extra_cov["kernels_batch_pattern_matrix"] = st.get("matrix", {})
+    if st.get("matrix_missing"):
+        chk.notes.append("kernel x batch patterns not reached by the generator in this run: " + ", ".join(st["matrix_missing"]))
     chk.extra_cov["kernels_lines"] = {"valid": len(base_valid), "malformed": len(base_mal), "exhaustive": len(st["exhaustive"]),
                                        "companions": sum(len(c[1]) for c in comp.values())}
     t = "modelled, not verified: the kernels of Device (Model/KernelsMove.lean) are hand-modelled in Lean and tied to both CPU backends by the correspondence run of this check; values are integers (float32 rounding, NaN and signed zeros are outside the theorems)"
